@@ -11,6 +11,10 @@ import sys
 V = os.path.dirname(os.path.dirname(os.path.abspath(__file__)))
 args = sys.argv[1:]
 props = ["C%02d" % i for i in range(1, 36)]
+if "--props" in args:
+    i = args.index("--props")
+    props = args[i + 1].split(",")
+    del args[i:i + 2]
 # facts once
 subprocess.run([V + "/check", "C35", "--no-evidence"] + [a for a in args if a != "--no-evidence"], stdout=subprocess.DEVNULL)
 
